@@ -52,6 +52,20 @@ pub struct ReqPlan {
     pub pre_delay_us: u64,
     /// after this many ordinary reads, do one zero-length read (`read(&mut [])`)
     pub zero_read_after: Option<usize>,
+    /// which std::io::Read entry point the handler uses on the body reader
+    pub read_api: ReadApi,
+}
+
+#[derive(Clone, Copy, Debug, PartialEq)]
+pub enum ReadApi {
+    /// `read(&mut buf)` in a loop
+    Read,
+    /// `read_vectored` with two slices in a loop
+    ReadVectored,
+    /// one `read_to_end`
+    ReadToEnd,
+    /// one `read_to_string` (bodies are ASCII)
+    ReadToString,
 }
 
 impl ReqPlan {
@@ -63,6 +77,7 @@ impl ReqPlan {
             finish: Finish::Respond { status: 200, body_len: 10, declared: true, threshold: None, max_piece: 100000 },
             pre_delay_us: 0,
             zero_read_after: None,
+            read_api: ReadApi::Read,
         }
     }
     pub fn finish_label(&self) -> &'static str {
@@ -282,7 +297,47 @@ pub fn execute_plan(mut rq: Request, plan: &ReqPlan, rec: &Arc<Mutex<Delivered>>
     let want_read = !matches!(plan.read, ReadPlan::None | ReadPlan::Upto(0));
     if want_read {
         rec.lock().unwrap().t_as_reader_ns = now_ns();
-        let (body, mut reads, eof, post_nonzero, err) = if plan.as_reader_calls <= 1 {
+        let whole = matches!(plan.read_api, ReadApi::ReadToEnd | ReadApi::ReadToString) && matches!(plan.read, ReadPlan::ToEof { .. });
+        let (body, mut reads, eof, post_nonzero, err) = if whole {
+            // one call that reads to the end of the body, then the extra reads of the plan
+            let rd = lib(|| rq.as_reader());
+            let mut body = Vec::new();
+            let r = if plan.read_api == ReadApi::ReadToEnd {
+                lib(|| rd.read_to_end(&mut body))
+            } else {
+                let mut s = String::new();
+                let r = lib(|| rd.read_to_string(&mut s));
+                body = s.into_bytes();
+                r
+            };
+            let mut reads = vec![(usize::MAX, r.as_ref().map(|n| *n as i64).unwrap_or(-1))];
+            let mut post = false;
+            let extra = match plan.read {
+                ReadPlan::ToEof { extra } => extra,
+                _ => 0,
+            };
+            let mut b1 = [0u8; 64];
+            for _ in 0..extra {
+                match lib(|| rd.read(&mut b1)) {
+                    Ok(0) => reads.push((64, 0)),
+                    Ok(n) => {
+                        post = true;
+                        reads.push((64, n as i64));
+                    }
+                    Err(_) => reads.push((64, -1)),
+                }
+            }
+            (body, reads, r.is_ok(), post, r.err().map(|e| format!("{:?}: {}", e.kind(), e)))
+        } else if plan.read_api == ReadApi::ReadVectored && plan.as_reader_calls <= 1 {
+            let rd = lib(|| rq.as_reader());
+            read_body(plan, &mut |b| {
+                // split the buffer in two slices; read_vectored fills them in order
+                let cut = b.len() / 2;
+                let (x, y) = b.split_at_mut(cut);
+                let mut io = [std::io::IoSliceMut::new(x), std::io::IoSliceMut::new(y)];
+                lib(|| rd.read_vectored(&mut io))
+            })
+        } else if plan.as_reader_calls <= 1 {
             // ask for the body once, keep the reader
             let rd = lib(|| rq.as_reader());
             read_body(plan, &mut |b| lib(|| rd.read(b)))
